@@ -27,12 +27,53 @@ class InlinedCFG(CFG):
     pass
 
 
+def _substituted(cal: FuncInfo, call: ast.Call) -> FuncInfo:
+    """A copy of callee `cal` whose parameters are replaced by the (simple) argument expressions of `call` - beta reduction, so that the
+    inlined body reads in the caller's terms (`ttl is None` becomes `self.ttl is None`)."""
+    import copy
+
+    params = [p.arg for p in cal.params()]
+    if cal.cls is not None and "staticmethod" not in cal.decorators and params and isinstance(call.func, ast.Attribute):
+        params = params[1:]
+    binding: dict[str, ast.expr] = {}
+    for i, a in enumerate(call.args):
+        if isinstance(a, ast.Starred) or i >= len(params):
+            break
+        binding[params[i]] = a
+    for k in call.keywords:
+        if k.arg is not None:
+            binding[k.arg] = k.value
+
+    def simple(e):
+        return isinstance(e, (ast.Name, ast.Attribute, ast.Constant)) and all(isinstance(x, (ast.Name, ast.Attribute, ast.Constant, ast.Load)) for x in ast.walk(e))
+
+    binding = {k: v for k, v in binding.items() if simple(v)}
+    # parameters that are re-assigned inside the callee cannot be substituted
+    for n in ast.walk(cal.node):
+        if isinstance(n, ast.Name) and isinstance(n.ctx, (ast.Store, ast.Del)) and n.id in binding:
+            binding.pop(n.id)
+    if not binding:
+        return cal
+
+    class T(ast.NodeTransformer):
+        def visit_Name(self, node):
+            if isinstance(node.ctx, ast.Load) and node.id in binding:
+                return copy.deepcopy(binding[node.id])
+            return node
+
+    node = T().visit(copy.deepcopy(cal.node))
+    ast.fix_missing_locations(node)
+    clone = FuncInfo(cal.qualname, cal.name, node, cal.module, cal.cls, cal.parent, dict(cal.nested))
+    return clone
+
+
 def inline(
     root: FuncInfo,
     resolver,
     depth: int = 4,
     policy: Callable[[Node, FuncInfo], bool] | None = None,
     max_nodes: int = 20000,
+    substitute: bool = False,
 ) -> CFG:
     """Clone root's CFG, replacing calls to repid functions by the callee bodies (bounded depth).
 
@@ -105,6 +146,8 @@ def inline(
             cancel_succ = [(y, k) for y, k in src.succ[aw.id] if k == "cancel"] if aw is not None else []
             for t in targets:
                 first_new = len(g.nodes)
+                if substitute:
+                    t = _substituted(t, n.ast)
                 sub = emit(t, stack + (f"{func.short()}:{n.lineno}",), d - 1, active | {t.qualname})
                 for rn in g.nodes[first_new:]:
                     if rn.kind == "return" and rn.func is t and "ret_site" not in rn.meta and isinstance(rn.ast, ast.Return):
